@@ -369,7 +369,10 @@ func (s *Server) Snapshot() (raft.FSMSnapshot, error) {
 			protoStream.CreationTimestamp = creationTime.UnixNano()
 		}
 		for j, partition := range partitions {
-			protoStream.Partitions[j] = partition.Partition
+			// Copy the protobuf under the partition mutex. Persist runs
+			// concurrently with Apply, so the snapshot must not share the
+			// live protobuf with the partition.
+			protoStream.Partitions[j] = partition.snapshotProto()
 		}
 		protoStreams[i] = protoStream
 	}
